@@ -266,14 +266,40 @@ func (p *poller) readWriteLoop() {
 			default: // for socket connections
 				c := p.getConn(fd)
 				if c != nil {
-					if ev.Events&epollEventsWrite != 0 {
-						if c.onConnected == nil {
-							_ = c.flush()
-						} else {
-							c.onConnected(c, nil)
-							c.onConnected = nil
-							c.resetRead()
+					if c.onConnected != nil && ev.Events&(epollEventsWrite|epollEventsError) != 0 {
+						// An asynchronous connect has finished. It only succeeded if
+						// the socket reports no pending error (a refused connect is
+						// reported as writable, too).
+						var dialErr error
+						soerr, err := syscall.GetsockoptInt(fd, syscall.SOL_SOCKET, syscall.SO_ERROR)
+						if err != nil {
+							dialErr = err
+						} else if soerr != 0 {
+							dialErr = syscall.Errno(soerr)
 						}
+						if dialErr != nil {
+							// closing reports the failure to the dial callback.
+							_ = c.closeWithError(dialErr)
+							continue
+						}
+						c.mux.Lock()
+						var onConnected func(c *Conn, err error)
+						if !c.closed {
+							onConnected = c.onConnected
+							c.onConnected = nil
+						}
+						c.mux.Unlock()
+						if onConnected != nil {
+							onConnected(c, nil)
+							// keep the write event if the callback left a backlog.
+							c.mux.Lock()
+							if len(c.writeList) == 0 {
+								c.resetRead()
+							}
+							c.mux.Unlock()
+						}
+					} else if ev.Events&epollEventsWrite != 0 {
+						_ = c.flush()
 					}
 
 					if ev.Events&epollEventsRead != 0 {
